@@ -20,6 +20,7 @@ func init() {
 		Canary: []CanaryExpect{{Rule: "NOWRAP-F", Bad: "canaryBadClampF", Good: "canaryGoodPlainF"},
 			{Rule: "REM-SIGN", Bad: "canaryBadRemWrap", Good: ""}, {Rule: "FLOATGUARD", Bad: "canaryBadFloatGuard", Good: ""}}})
 	register(&propSpec{ID: "C08", Level: "other", Run: runC08,
+		Canary:  []CanaryExpect{{Rule: "RADIX", Bad: "canaryBadRadix", Good: "canaryGoodRadix"}},
 		Explain: otherNote + "C08: decided = the constant stencils are exactly the 6 / 8 / 26 offset sets, each offset once, all produced through GetShiftingSpatialID; the N-layer loop nest is the full box minus the origin applied to every input ID; N-layer result de-duplicated; negative layers rejected."})
 }
 
@@ -74,6 +75,7 @@ func runC05(w *World, r *Report, tier string) {
 func runC06(w *World, r *Report, tier string) {
 	kindRuleTexts(r)
 	unresolvedSeeds(w, r)
+	ruleSignedField(w, r)
 	entries := entryFuncs(w, r, "shape.GetExtendedSpatialIdsOnLine", "shape.GetSpatialIdsOnLine")
 	ruleChunks(w, r, closureOf(w, entries))
 	cl := closureOf(w, entries)
@@ -102,6 +104,7 @@ func runC07(w *World, r *Report, tier string) {
 	unresolvedSeeds(w, r)
 	entries := entryFuncs(w, r, "operated.GetShiftingSpatialID")
 	cl := closureOf(w, entries)
+	ruleIndexIntervalOpt(w, r, cl, true)
 	r.Analysed["closure_functions"] = len(cl)
 	kr := kindRulesFor(w)
 	kr.emit(w, r, []string{"KIND-CALL", "KIND-LAYOUT", "KIND-STORE", "REM-SIGN"}, cl)
